@@ -56,6 +56,18 @@ func judgeUsable(c *Ctx, k usableCase) {
 	// generation / validation with an input that is valid as far as derivable
 	in := validInputFor(k.Suite)
 	admitted := ref.Admit(k.Suite, in)
+	// every 5th configuration also as a constructed-then-edited RawSuite value: the outcome must not depend on how the value was made
+	if (k.Suite.Digits+k.Suite.Hash+k.Suite.Challenge+k.Suite.TimeStep)%5 == 0 {
+		if es, eerr, epan := makeSuite(viaEdited, k.Suite); eerr == nil && epan == nil && es != nil {
+			_, e2, p2 := callGenerateOCRA("GEZDGNBVGY3TQOJQGEZDGNBVGY3TQOJQ", es, toOCRAInput(in))
+			var verr2 error
+			p3 := monCatch(func() { verr2 = es.Validate() })
+			r.Eval(2)
+			if p2 != nil || p3 != nil || (e2 == nil) != (want && admitted) || (verr2 == nil) != want {
+				r.Violate("C14|constructed-then-edited|usability|"+rule, "a suite value obtained from a constructor and then edited by the caller is judged differently from the same configuration built directly ("+rule+")", "usable", k, fmt.Sprintf("usable=%v", want), fmt.Sprintf("Validate err=%v, GenerateOCRA err=%v panic=%v/%v", verr2, e2, p2, p3))
+			}
+		}
+	}
 	code, gerr, gpan := callGenerateOCRA("GEZDGNBVGY3TQOJQGEZDGNBVGY3TQOJQ", cfg, toOCRAInput(in))
 	r.Eval(1)
 	if gpan != nil {
